@@ -144,3 +144,9 @@ Definition data_verdict_ok (maxb : N) (lines : list bytes) (code : N) : bool :=
   if N.eqb code 250 then N.leb (szof lines) maxb && Nat.leb (count_rcv (hdr_part lines)) MAXHOPS
   else if N.eqb code 552 then N.ltb maxb (szof lines)
   else true.
+
+(** checker for the message of one hand-off, applied to the implementation: it ends with exactly the data lines the client
+    sent (CRLF -> LF, one leading dot removed); what stands before them is the trace header.  Sound: Proofs/DataProofs.v *)
+Definition handoff_msg_ok (lines : list bytes) (msg : bytes) : bool :=
+  Nat.leb (length (stored lines)) (length msg)
+  && bytes_eqb (skipn (length msg - length (stored lines)) msg) (stored lines).
